@@ -50,7 +50,9 @@ RULE = (
     "lengths omitted, one row, plain again, offset view, transposed-dense, triple dimension outermost / "
     "slices = stack([s,e]).T (column views contiguous), int32 lengths / alignments / slices and float64 "
     "features, garbage beyond in_lens / ref_lens (NaN, inf, +-2^62, negative, plausible), one larger instance "
-    "(T=300 / 200 / R=40), plus (1,1,3) refs for every segment; every call: arguments unchanged, the previous "
+    "(T=300 / 200 / R=40), the plain call under torch.set_default_dtype(float64) and under inference_mode, "
+    "torch.jit.script and torch.jit.trace forms of both modules (traced on an example of another shape and "
+    "other values; called on plain, reversed and lengths-omitted inputs), plus (1,1,3) refs for every segment; every call: arguments unchanged, the previous "
     "result and the previous module result unchanged, result equal to the oracle. "
     "Cases are cartesian products of duplicate-free generators (distinct by construction); a case is "
     "non-trivial when the oracle prescribes >= 1 window (slicer) / the list holds >= 1 known token and "
@@ -71,6 +73,9 @@ ASSUMPTIONS = [
     "a token with an empty segment is 'contained' in a slice [a,b) when a <= start == end <= b",
     "int32 is enumerated only where the implementation's contract is dtype-agnostic (lengths, alignments, token "
     "slices); int32 refs are not (the output would inherit the dtype, the documentation says long)",
+    "compiled forms: script and trace as exercised by tests/test_feats.py, CPU, one example per traced module",
+    "directory level: the command has one --file-prefix / --file-suffix pair for input and output; "
+    "--feat-subdir / --ali-subdir / --ref-subdir spellings are left at their defaults",
     "directory level: pad mode 'constant' only (padding content belongs to C09); TorchScript/CUDA not explored",
 ]
 BUDGET_S = {"quick": 240, "thorough": 2400}
